@@ -52,6 +52,11 @@ CLAIMED = {
         "Trusted: separator classifier transcribed from docs/DigitSeparators.md and the per-mode examples documented in skip.rs; only ~130 of the 16^3 mode triples are compiled.",
         "bounded-exhaustive enumeration + property-based testing: metamorphic relations and a reference classifier",
     ),
+    "C18": (
+        "Run-time builder states (rebuild -> build_unchecked / build_strict under catch_unwind) exhaustively over all 2^18 syntax-flag words, all 2^13 separator-flag words x separator set/unset, all 256 values of every punctuation / radix field, all punctuation triples from a 12-byte set, plus generated joint states, against a reference validity predicate written from the documentation; every catalogue entry's compile-time verdict vs the reference vs the run-time builder; every compiled invalid format x inputs (configuration error, never a value or panic); generated invalid decimal point / exponent options on valid formats (InvalidPunctuation from complete and partial float parsers); generated setter sequences on the format builder (documented bit layout, getters, rebuild) and the options builders.",
+        "Trusted: reference predicate in harness/vcore/fmodel.rs; when several rules are violated any of their errors is accepted; feature sets default/pow2/radix/format/radix+format.",
+        "exhaustive enumeration of sub-domains + property-based testing against a reference validity predicate; stateful setter sequences against a last-write-wins model",
+    ),
     "C19": (
         "The C01/C05 generators for STANDARD and every compiled radix / mixed-base format; each input is parsed with lossy=false and lossy=true (complete, and partial with trailing junk): identical accept/reject, count, error; accepted results within one bit-pattern neighbour of the exactly rounded value, identical for exact-fast-path inputs and for zero/infinite results (except in the last rounding zone next to MAX / min subnormal, where the statement's neighbour clause also applies and both outcomes are accepted).",
         "Trusted: exact oracle; the harness's (conservative) definition of 'decided by the exact fast path'.",
